@@ -282,14 +282,40 @@ for variant, cls in (('inverse', 'KFACInverseLayer'), ('eigen', 'KFACEigenLayer'
     )
 
 
-# ------------------------------------------------------------------ memory_usage of the preconditioner (C13)
-# (the per-layer byte counts are proved in the layer contracts; the accumulation over layers -- a defaultdict filled
-# in a nested loop over dictionaries of dynamic keys and summed with sum(values()) -- is decided by the bounded
-# run-time contract check against the bytes of the tensors actually held; labelled bounded)
-contract(
-    f'{P}.memory_usage', props=['C13', 'C03'], mode='bounded', result=KDict(KStr, KInt),
-    ensures=[('reports_the_bytes_actually_held', 'result == held_bytes_reference(self)'),
-             ('total_is_the_sum', "result['total'] == sum(v for k, v in result.items() if k != 'total')"),
-             ('nothing_left_pending', 'nothing_pending(self._tdc)')],
-    modifies=['*'],
-)
+# ------------------------------------------------------------------ memory_usage, the accumulation over layers (C13), deductive part
+spec_def('dget', ['d', 'k'], 'd[k] if k in d else 0')      # defaultdict(int) read
+KEYS6 = ['a_factors', 'g_factors', 'a_batch', 'g_batch', 'a_inverses', 'g_inverses']
+SO_BYTES = {'inverse': ("bytes_of(old(awaited(l._a_inv)))", "bytes_of(old(awaited(l._g_inv)))"),
+            'eigen': ("bytes_of(old(awaited(l._qa))) + bytes_of(old(awaited(l._da)))",
+                      "bytes_of(old(awaited(l._qg))) + bytes_of(old(awaited(l._dg))) + bytes_of(old(awaited(l._dgda)))")}
+for variant, cls in (('inverse', 'KFACInverseLayer'), ('eigen', 'KFACEigenLayer')):
+    TERM = {'a_factors': 'bytes_of(old(awaited(l._a_factor)))', 'g_factors': 'bytes_of(old(awaited(l._g_factor)))',
+            'a_batch': 'bytes_of(old(l._a_batch))', 'g_batch': 'bytes_of(old(l._g_batch))',
+            'a_inverses': SO_BYTES[variant][0], 'g_inverses': SO_BYTES[variant][1]}
+    KEPT_M = ('tensors_and_batches_kept', 'all(' + ' and '.join(
+        [f'awaited(flayer(self, m).{f}) is old(awaited(flayer(self, m).{f}))' for f in ['_a_factor', '_g_factor'] + SO_FIELDS[variant]]
+        + [f'flayer(self, m).{f} is old(flayer(self, m).{f})' for f in ('_a_batch', '_g_batch')]) + ' for m in range(len(self._layers)))')
+    STEP = ' and '.join(f"msum(self, '{k}', j + 1) == msum(self, '{k}', j) + " + TERM[k].replace('l.', 'flayer(self, j).') for k in KEYS6)
+    contract(
+        f'{P}.memory_usage#{variant}', props=['C13', 'C03'], class_map={'KFACBaseLayer': cls}, theories=['opaque_nonlinear'],
+        result=KDict(KStr, KInt, default=0), locals={'sizes': KDict(KStr, KInt, default=0)},
+        requires=[('communicator', 'self._tdc is not None and tdc_inv(self._tdc)'),
+                  ('layers_present', 'all(self._layers[m][1] is not None for m in self._layers)')],
+        definitions=[('msum_0', ' and '.join(f"msum(self, '{k}', 0) == 0" for k in KEYS6)), ('msum_step@j', STEP)],
+        ensures=[('sum_over_layers_of_the_bytes_held[ghost]', ' and '.join(f"dget(result, '{k}') == msum(self, '{k}', len(self._layers))" for k in KEYS6)),
+                 ('nothing_left_pending', 'nothing_pending(self._tdc)'),
+                 ('reports_the_bytes_actually_held[bounded]', 'result == held_bytes_reference(self)'),
+                 ('total_is_the_sum[bounded]', "result['total'] == sum(v for k, v in result.items() if k != 'total')")],
+        loops={'iter:self._layers.values()': dict(index='i', unfold=['msum_step'], invariants=[
+                   ('running_sums', ' and '.join(f"dget(sizes, '{k}') == msum(self, '{k}', i)" for k in KEYS6)),
+                   ('layers_stable', 'self._layers == old(self._layers)'), KEPT_M],
+                   hints=[('this_layer', 'layer is flayer(self, i)')] + [
+                       (f'adds_{k}', f"dget(sizes, '{k}') == msum(self, '{k}', i) + layer_sizes['{k}']") for k in KEYS6] + [
+                       (f'term_{k}', f"layer_sizes['{k}'] == " + TERM[k].replace('l.', 'flayer(self, i).')) for k in KEYS6]),
+               'iter:layer_sizes.items()': dict(index='j', invariants=[KEPT_M,
+                   ('partial_layer', 'all(dget(sizes, key_at(layer_sizes, m)) == msum(self, key_at(layer_sizes, m), i) + '
+                                     '(layer_sizes[key_at(layer_sizes, m)] if m < j else 0) for m in range(len(layer_sizes)))'),
+                   ('layers_stable', 'self._layers == old(self._layers)')])},
+        modifies=['*._a_factor', '*._g_factor', '*._a_inv', '*._g_inv', '*._qa', '*._qg', '*._da', '*._dg', '*._dgda', '*.resolved', '*.val',
+                  'self._tdc._allreduce_buckets', '*._tensors', '*._futures', '*._size', '*._communicated', 'ghost:trace', 'ghost:next_sid'],
+    )
